@@ -146,9 +146,25 @@ def gen_net(rng, tier, widen):
                            [c[0] for c in custom if (c[2] < ANCHOR - 2 * 10 ** 12) == lband]
                 prof = [rng.choice(pool) for _ in range(spans + 1)]      # mixed amplifier models inside one OMS
             lines.append({'from': s, 'to': t, 'amps': prof, 'fused': rng.random() < 0.15})
+    # auto-design: design bands on the ROADMs (C or C+L, the same everywhere or mixed) and lines without any amplifier
+    # in the topology: booster, in-line and pre-amplifiers (Edfa or Multiband_amplifier) are inserted AND selected by
+    # the design itself
+    design = None
+    r = rng.random()
+    if r < 0.45:
+        d = rng.random()
+        design = ['C'] * nroadm if d < 0.35 else ['CL'] * nroadm if d < 0.7 else [rng.choice(['C', 'CL']) for _ in range(nroadm)]
+        share = rng.choice([0.4, 0.7, 1.0])
+        for ln in lines:
+            if rng.random() < share:
+                ln['spans'] = len(ln['amps']) - 1
+                ln['km'] = rng.choice([40.0, 50.0, 75.0, 90.0])
+                ln['amps'] = None
     r = rng.random()
     odd = 'dangling_trx' if r < 0.03 else ('line_to_trx' if r < 0.07 else None)
-    return {'kind': 'net', 'nroadm': nroadm, 'lines': lines, 'custom': custom,
+    if design is not None:
+        odd = None
+    return {'kind': 'net', 'nroadm': nroadm, 'lines': lines, 'custom': custom, 'design': design,
             'unidir_drop': rng.random() < 0.08, 'graph_odd': odd}
 
 
@@ -290,15 +306,30 @@ def amp_element(uid, prof):
             "amplifiers": [{"type_variety": s, "operational": dict(op)} for s in subs], "metadata": nets.loc()}
 
 
+DESIGN_BANDS = {'C': [{"f_min": 191.3e12, "f_max": 196.0e12, "spacing": 50e9}],
+                'CL': [{"f_min": 191.3e12, "f_max": 196.0e12, "spacing": 50e9},
+                       {"f_min": 187.0e12, "f_max": 190.0e12, "spacing": 50e9}]}
+
+
 def net_topology(case):
     els, cxs = [], []
+    design = case.get('design')
     for i in range(case['nroadm']):
-        els += [nets.trx(f'T{i}'), nets.roadm(f'R{i}')]
+        params = {'design_bands': copy.deepcopy(DESIGN_BANDS[design[i]])} if design else None
+        els += [nets.trx(f'T{i}'), nets.roadm(f'R{i}', params)]
         cxs += [nets.cx(f'T{i}', f'R{i}'), nets.cx(f'R{i}', f'T{i}')]
     for k, ln in enumerate(case['lines']):
         if case.get('unidir_drop') and k == len(case['lines']) - 1 and len(case['lines']) > 2:
             continue        # one direction missing: that OMS has no reverse partner
         tag = f'{k} R{ln["from"]}-R{ln["to"]}'
+        if ln['amps'] is None:      # fibres only: every amplifier of this OMS comes from the auto-design
+            line = []
+            for j in range(ln['spans'] or 1):
+                line.append(nets.fiber(f'f{tag} {j}', ln.get('km', 50.0)))
+                if ln['fused'] and j == 0 and (ln['spans'] or 1) > 1:
+                    line.append(nets.fused(f'fu{tag} {j}', 1.0))
+            nets.chain(els, cxs, f'R{ln["from"]}', f'R{ln["to"]}', line)
+            continue
         line = [amp_element(f'booster {tag}', ln['amps'][0])]
         for j, p in enumerate(ln['amps'][1:]):
             line.append(nets.fiber(f'f{tag} {j}', 50.0))
@@ -392,6 +423,45 @@ def run(case, drv):
     return {'net': run_net, 'file': run_net, 'align': run_align, 'unit': run_unit}[case['kind']](case, drv)
 
 
+_lib_cache = {}
+
+
+def library_bands(eqpt_name, custom=()):
+    """amplifier bands as the equipment library DOCUMENT states them (not the loaded objects):
+    variety -> [[f_min, f_max], ...] (one band for an Edfa model, one per sub-amplifier for a multiband model)"""
+    key = (eqpt_name, repr(custom))
+    if key not in _lib_cache:
+        doc = nets.eqpt_json(eqpt_name)
+        single, multi = {}, {}
+        for a in doc['Edfa']:
+            if a.get('type_def') == 'multi_band':
+                multi[a['type_variety']] = list(a['amplifiers'])
+            else:       # library default band when the entry states none (core/parameters.py DEFAULT_EDFA_CONFIG)
+                single[a['type_variety']] = [int(a.get('f_min', 191.275e12)), int(a.get('f_max', 196.125e12))]
+        for name, lo, hi in custom:
+            single[name] = [int(lo), int(hi)]
+        table = {v: [b] for v, b in single.items()}
+        for v, subs in multi.items():
+            table[v] = [single[x] for x in subs]
+        _lib_cache[key] = (table, single)
+    return _lib_cache[key]
+
+
+def expected_amp_bands(el, table, single, case_profile):
+    """bands of one amplifier element for the monitor: from the case (explicit amplifiers) or, for an amplifier inserted
+    by the design, from the NAME of the model the design selected, looked up in the library document"""
+    from gnpy.core.elements import Multiband_amplifier
+    prof = case_profile.get(el.uid)
+    if prof is not None:
+        if prof in PROFILES:
+            typ, tv, subs = PROFILES[prof]
+            return [list(single[x]) for x in subs] if subs else [list(single[tv])]
+        return [list(single[prof])]
+    if isinstance(el, Multiband_amplifier):
+        return [list(single[a.params.type_variety]) for a in el.amplifiers.values()]
+    return [list(b) for b in table[el.params.type_variety]]
+
+
 def usable_expected(k, amps, si):
     """slot index k (centre frequency 193.1 THz + k * 6.25 GHz) lies in a band of every amplifier of the OMS"""
     f = ANCHOR + k * GRID
@@ -420,11 +490,26 @@ def run_net(case, drv):
     else:
         try:
             net, _, _ = designed_network(eq, net)
-        except Exception as e:  # the design of this network fails: not a designed network, nothing to judge for C15
+        except Exception as e:
             res.stats[f'design_failed_{err_kind(e)}'] += 1
+            if case['kind'] == 'net':
+                # the generated networks are designable by construction (explicit amplifiers with a common band per
+                # OMS, design bands that the library can serve): a failing design means no OMS list for a network the
+                # property quantifies over
+                res.fail(f'designed network cannot be built: designed_network raises {err_kind(e)}: {str(e)[:120]}',
+                         cls='unlisted')
             return res
-    si = eq['SI']['default']
-    si_band = [int(si.f_min), int(si.f_max)]
+    eq_name = case['eqpt'] if case['kind'] == 'file' else EQPT
+    table, single = library_bands(eq_name, tuple(tuple(c) for c in case.get('custom', ())))
+    si_doc = nets.eqpt_json(eq_name)['SI'][0]
+    si_band = [int(si_doc['f_min']), int(si_doc['f_max'])]
+    case_profile = {}
+    for k, ln in enumerate(case.get('lines', [])):
+        if ln.get('amps'):
+            tag = f'{k} R{ln["from"]}-R{ln["to"]}'
+            case_profile[f'booster {tag}'] = ln['amps'][0]
+            for j, p in enumerate(ln['amps'][1:]):
+                case_profile[f'a{tag} {j}'] = p
     nodes, kind, succ = export_graph(net)
     wf = graph_wellformed(kind, succ)
     res.stats['graph_wellformed'] += int(wf is None)
@@ -478,15 +563,14 @@ def run_net(case, drv):
             if not net.has_edge(a, b):
                 res.fail(f'OMS is not a route of the network: OMS {o.oms_id} {a.uid} -> {b.uid} is not connected')
         if [e.uid for e in o.el_list] != list(o.el_id_list):
-            res.fail(f'el_id_list and el_list differ: OMS {o.oms_id}')
+            res.mismatch('el_id_list vs el_list', list(o.el_id_list), [e.uid for e in o.el_list])
         for e in o.el_list[1:-1]:
             if isinstance(e, Roadm):
                 res.fail(f'OMS crosses a ROADM: OMS {o.oms_id} contains {e.uid}')
             elif e.uid in count:
                 count[e.uid] += 1
                 if getattr(e, 'oms_id', None) != o.oms_id or getattr(e, 'oms', None) is not o:
-                    res.fail(f'element/OMS back reference wrong: {e.uid} in OMS {o.oms_id} carries oms_id '
-                             f'{getattr(e, "oms_id", None)}')
+                    res.mismatch('element/OMS back reference', [e.uid, getattr(e, 'oms_id', None)], o.oms_id)
     bad = {u: c for u, c in count.items() if c != 1}
     if bad:
         res.fail(f'partition: line elements not in exactly one OMS: {dict(list(bad.items())[:4])}')
@@ -503,8 +587,10 @@ def run_net(case, drv):
         if r is not None and ends.count((a, b)) == 1 and ends.count((b, a)) == 1 and r.reversed_oms is not o:
             res.fail(f'reverse pairing is not symmetric: OMS {o.oms_id} <-> {r.oms_id}')
     b0 = oms_list[0].spectrum_bitmap
-    f_lo = min(b[0] for b in net_bands) if net_bands else None
-    f_hi = max(b[1] for b in net_bands) if net_bands else None
+    all_amp_bands = [bd for n in net.nodes() if isinstance(n, (Edfa, Multiband_amplifier))
+                     for bd in expected_amp_bands(n, table, single, case_profile)]
+    f_lo = min(b[0] for b in all_amp_bands) if all_amp_bands else None
+    f_hi = max(b[1] for b in all_amp_bands) if all_amp_bands else None
     offgrid = False
     for o in oms_list:
         b = o.spectrum_bitmap
@@ -513,10 +599,13 @@ def run_net(case, drv):
             res.fail(f'maps do not cover one contiguous slot range: OMS {o.oms_id} [{b.n_min},{b.n_max}] '
                      f'{len(b.freq_index)} indices {len(b.bitmap)} cells, OMS 0 [{b0.n_min},{b0.n_max}]')
             continue
-        if f_lo is not None and (b.n_min != n_of(f_lo) or b.n_max != n_of(f_hi)):
-            res.fail(f'slot range is not the amplifier range of the network: [{b.n_min},{b.n_max}] vs '
-                     f'[{n_of(f_lo)},{n_of(f_hi)}]')
-        amps = [bands_of(e) for e in o.el_list if isinstance(e, (Edfa, Multiband_amplifier))]
+        # the common range must CONTAIN every slot whose centre lies in an amplifier band of the network (its exact
+        # extent is under correspondence only)
+        if f_lo is not None and (b.n_min > -((ANCHOR - f_lo) // GRID) or b.n_max < (f_hi - ANCHOR) // GRID):
+            res.fail(f'slot range does not contain the amplifier range of the network: [{b.n_min},{b.n_max}] vs '
+                     f'{f_lo} .. {f_hi} Hz')
+        amps = [expected_amp_bands(e, table, single, case_profile) for e in o.el_list
+                if isinstance(e, (Edfa, Multiband_amplifier))]
         edges = [x for a in amps for bd in a for x in bd] or si_band
         og = any((x - ANCHOR) % GRID for x in edges)
         offgrid = offgrid or og
@@ -533,6 +622,10 @@ def run_net(case, drv):
     res.stats['oms_without_reverse'] += sum(1 for o in oms_list if o.reversed_oms is None)
     kinds = {tuple(sorted({tuple(bd) for e in o.el_list if isinstance(e, (Edfa, Multiband_amplifier)) for bd in bands_of(e)}))
              for o in oms_list}
+    res.stats['auto_designed_oms'] += sum(1 for o in oms_list if any(
+        isinstance(e, (Edfa, Multiband_amplifier)) and e.uid not in case_profile for e in o.el_list)) if case['kind'] == 'net' else 0
+    res.stats['multiband_auto_selected'] += sum(1 for n in net.nodes() if isinstance(n, Multiband_amplifier)
+                                                and n.uid not in case_profile) if case['kind'] == 'net' else 0
     res.stats['distinct_band_layouts_%d' % min(4, len(kinds))] += 1
     res.nontrivial = len(kinds) >= 2
     return res
@@ -565,8 +658,8 @@ def run_align(case, drv):
                 continue
             old = dict(zip(b['freq_index'], b['cells']))
             for k, c in zip(a['freq_index'], a['cells']):
-                if (k in old and c != old[k]) or (k not in old and c != '0'):
-                    res.fail(f'alignment moved an occupancy: map {i} index {k} holds {c}, before {old.get(k, "nothing (must be occupied)")}')
+                if (k in old and c != old[k]) or (k not in old and c == '1'):
+                    res.fail(f'alignment moved an occupancy: map {i} index {k} holds {c}, before {old.get(k, "nothing (an added slot must not be free)")}')
                     break
         res.stats['align_maps'] += len(before)
         res.stats['align_extended'] += sum(1 for b in before if (b['n_min'], b['n_max']) != (lo, hi))
@@ -599,7 +692,7 @@ def run_unit(case, drv):
                 res.fail(f'common band wrong: frequency {float(f)} is {"inside" if not exp else "outside"} the result {got}')
                 break
         if got != sorted(got):
-            res.fail('common band not sorted')
+            res.mismatch('find_common_range result not sorted', got, sorted(got))
         res.stats['common_bands_%d' % min(3, len(got))] += 1
     elif op == 'bitmap':
         class _E:    # stand-in for equipment: find_elements_common_range is replaced by the stated bands
